@@ -25,6 +25,7 @@ import (
 )
 
 type scenario struct {
+	Cold  bool     `json:"cold"` // the server is not started before the first step (the steps start it)
 	Sid   string   `json:"sid"`
 	Args  []string `json:"args"`
 	Steps []step   `json:"steps"`
@@ -308,7 +309,10 @@ func runScenario(idx int, sc *scenario, bin, dir string) *bytes.Buffer {
 	encodeLine(buf, beginObs{E: "begin", Sid: sc.Sid, Args: sc.Args})
 
 	// first start: fresh ports; a lost race for a port shows as an early exit, so try again
-	for attempt := 0; attempt < 3; attempt++ {
+	if sc.Cold {
+		_ = srv.pickPorts()
+	}
+	for attempt := 0; attempt < 3 && !sc.Cold; attempt++ {
 		if err := srv.pickPorts(); err != nil {
 			fmt.Fprintf(os.Stderr, "procx: %s: ports: %v\n", sc.Sid, err)
 			continue
@@ -325,7 +329,7 @@ func runScenario(idx int, sc *scenario, bin, dir string) *bytes.Buffer {
 		}
 	}
 	srv.ownExit, srv.ownDied = 0, false
-	if !srv.running() {
+	if !srv.running() && !sc.Cold {
 		// it never came up (bad args?): that is a death of its own
 		srv.noteOwnDeath()
 	}
